@@ -204,3 +204,18 @@ Proof.
   intros a Ha.
   exact (inst fourier_projection_mixed_idem quarter four Hrs4 Hrsi4 iph iamp iamp_real iph_unit iph_amp iisq iisq_amp a [iflat] Ha iflat_isq_ok).
 Qed.
+
+(* ---------------------------------------------------------------- the unrepaired corner-centring
+   The pinned commit corner-centres the measured amplitudes with fftshift; the detector applies
+   fftshift again, and for an odd axis two fftshifts are a roll by N - 1 (one pixel), not the
+   identity: on a 3 x 3 grid the value measured at (0,0) is predicted at a different pixel. *)
+Lemma C16i_double_fftshift_odd :
+  exists a : nat -> nat -> nat, fftshift2 3 3 (fftshift2 3 3 a) 0 0 <> a 0 0.
+Proof. exists (fun i j => i + 3 * j). vm_compute. discriminate. Qed.
+
+Lemma C16i_double_fftshift_even (a : nat -> nat -> nat) n1 n2 :
+  n1 < 4 -> n2 < 6 -> fftshift2 4 6 (fftshift2 4 6 a) n1 n2 = a n1 n2.
+Proof.
+  intros H1 H2.
+  do 4 (destruct n1 as [|n1]; [do 6 (destruct n2 as [|n2]; [reflexivity|]); lia|]). lia.
+Qed.
